@@ -57,37 +57,75 @@ type hpSpec struct {
 
 func runHP(c *h.Case, s *hpSpec) {
 	p := pluginByID(s.Plugin)
-	tag := tagFor(c, 0)
 	lines := append(authLines(s.AName, s.A, p.Cred, otherOf(p.Cred)), authLines(s.PAName, s.PA, p.Cred, otherOf(p.Cred))...)
-	register(c, tag, lines, func(seenRec, *backend) string { return "plugin-http_proxy-relayed-without-credentials" }, nil)
 	taddr := fmt.Sprintf("127.0.0.1:%d", p.Target.Port)
 	addr := fmt.Sprintf("127.0.0.1:%d", p.Port)
 	has := carries(lines, p.Cred)
+	run.Distinct(fmt.Sprintf("hp|%s|%s|%s|%s|A=%s/%s|PA=%s/%s", s.Plugin, s.Form, s.Method, s.Version, kindsSig(s.A), s.AName, kindsSig(s.PA), s.PAName))
+	tunnelForm := s.Form == "connect" || s.Form == "connect-lower"
 	var b bytes.Buffer
-	writeLines := func() {
+	build := func(tag string) []byte {
+		b.Reset()
+		switch s.Form {
+		case "absolute":
+			fmt.Fprintf(&b, "%s http://%s/via-http-proxy HTTP/%s\r\nHost: %s\r\n", s.Method, taddr, s.Version, taddr)
+		case "origin":
+			fmt.Fprintf(&b, "%s /via-http-proxy HTTP/%s\r\nHost: %s\r\n", s.Method, s.Version, taddr)
+		case "connect":
+			fmt.Fprintf(&b, "CONNECT %s HTTP/%s\r\nHost: %s\r\n", taddr, s.Version, taddr)
+		default:
+			fmt.Fprintf(&b, "connect %s HTTP/%s\r\nHost: %s\r\n", taddr, s.Version, taddr)
+		}
 		for _, l := range lines {
 			fmt.Fprintf(&b, "%s: %s\r\n", l.Name, l.Value)
 		}
-	}
-	run.Count("http_proxy_plugin_requests", 1)
-	sig := fmt.Sprintf("hp|%s|%s|%s|%s|A=%s/%s|PA=%s/%s", s.Plugin, s.Form, s.Method, s.Version, kindsSig(s.A), s.AName, kindsSig(s.PA), s.PAName)
-	defer run.Distinct(sig)
-	switch s.Form {
-	case "absolute", "origin":
-		if s.Form == "absolute" {
-			fmt.Fprintf(&b, "%s http://%s/via-http-proxy HTTP/%s\r\nHost: %s\r\n", s.Method, taddr, s.Version, taddr)
+		if tunnelForm {
+			b.WriteString("\r\n")
 		} else {
-			fmt.Fprintf(&b, "%s /via-http-proxy HTTP/%s\r\nHost: %s\r\n", s.Method, s.Version, taddr)
+			fmt.Fprintf(&b, "X-Verif-Tag: %s\r\nConnection: close\r\n\r\n", tag)
 		}
-		writeLines()
-		fmt.Fprintf(&b, "X-Verif-Tag: %s\r\nConnection: close\r\n\r\n", tag)
-		c.Ev("request", "raw", b.String())
-		resp := doRaw(addr, b.Bytes(), s.Method, 20*time.Second)
-		c.Ev("response", "status", resp.Status, "header", resp.Header, "err", fmt.Sprint(resp.Err))
+		return b.Bytes()
+	}
+	type outcome struct {
+		resp   rawResp
+		res    tunnelResult
+		ids    []string
+		dialed bool
+	}
+	exchange := func(sub int) outcome {
+		tag := tagFor(c, sub)
+		raw := build(tag)
+		c.Ev("request", "raw", string(raw))
+		register(c, tag, lines, func(seenRec, *backend) string { return "plugin-http_proxy-relayed-without-credentials" }, nil)
+		run.Count("http_proxy_plugin_requests", 1)
+		var o outcome
+		if !tunnelForm {
+			o.dialed = true
+			o.resp = doRaw(addr, raw, s.Method, 20*time.Second)
+			c.Ev("response", "status", o.resp.Status, "header", o.resp.Header, "err", fmt.Sprint(o.resp.Err))
+		} else {
+			conn, err := net.DialTimeout("tcp", addr, 5*time.Second)
+			if err != nil {
+				return o
+			}
+			o.dialed = true
+			o.res = driveTunnel(c, conn, bufio.NewReader(conn), raw, tag, 15*time.Second)
+			conn.Close()
+			c.Ev("result", "res", o.res)
+		}
+		o.ids = judgeSeen(c, tag)
+		return o
+	}
+	o := exchange(0)
+	if !o.dialed {
+		run.Inconclusive("http_proxy plugin: dial failed")
+		return
+	}
+	if !tunnelForm {
+		resp := o.resp
 		if resp.Err == errTimeout {
 			run.Inconclusive("http_proxy plugin: no response within 20 s")
 		}
-		ids := judgeSeen(c, tag)
 		if !has && resp.Err == nil && c.Violations() == 0 && resp.Status != 400 {
 			if resp.Status != 407 || len(resp.Header.Values("Proxy-Authenticate")) == 0 {
 				c.Violation("plugin-http_proxy-no-refusal", "http_proxy plugin %s: request without the credentials %v answered with status %d, Proxy-Authenticate %q (want 407)", p.ID, p.Cred, resp.Status, resp.Header.Values("Proxy-Authenticate"))
@@ -95,29 +133,21 @@ func runHP(c *h.Case, s *hpSpec) {
 			run.Count("http_proxy_plugin_refusals_checked", 1)
 		}
 		if s.Form == "absolute" && s.Version == "1.1" && s.Method == "GET" && canonicalProxyAuth(lines, p.Cred) {
-			if resp.Status != 200 || resp.Header.Get("X-Verif-Backend") != p.Target.ID || len(ids) == 0 {
-				c.Violation("plugin-http_proxy-exact-credentials-refused", "http_proxy plugin %s: exact credentials %v in Proxy-Authorization: status %d, backend %q, err %v", p.ID, p.Cred, resp.Status, resp.Header.Get("X-Verif-Backend"), resp.Err)
+			good := func() bool {
+				return o.resp.Status == 200 && o.resp.Header.Get("X-Verif-Backend") == p.Target.ID && len(o.ids) > 0
+			}
+			for try := 1; try <= 2 && !good() && o.resp.Status != 407; try++ {
+				time.Sleep(time.Duration(try) * 500 * time.Millisecond)
+				run.Count("positive_control_retries", 1)
+				o = exchange(try)
+			}
+			if !good() {
+				c.Violation("plugin-http_proxy-exact-credentials-refused", "http_proxy plugin %s: exact credentials %v in Proxy-Authorization: status %d, backend %q, err %v", p.ID, p.Cred, o.resp.Status, o.resp.Header.Get("X-Verif-Backend"), o.resp.Err)
 			}
 			run.Count("http_proxy_plugin_positive_controls", 1)
 		}
-	default:
-		m := "CONNECT"
-		if s.Form == "connect-lower" {
-			m = "connect"
-		}
-		fmt.Fprintf(&b, "%s %s HTTP/%s\r\nHost: %s\r\n", m, taddr, s.Version, taddr)
-		writeLines()
-		b.WriteString("\r\n")
-		c.Ev("request", "raw", b.String())
-		conn, err := net.DialTimeout("tcp", addr, 5*time.Second)
-		if err != nil {
-			run.Inconclusive("http_proxy plugin: dial failed")
-			return
-		}
-		defer conn.Close()
-		res := driveTunnel(c, conn, bufio.NewReader(conn), b.Bytes(), tag, 15*time.Second)
-		c.Ev("result", "res", res)
-		ids := judgeSeen(c, tag)
+	} else {
+		res := o.res
 		if !has && c.Violations() == 0 {
 			if res.Backend != "" {
 				c.Violation("plugin-http_proxy-relayed-without-credentials", "http_proxy plugin %s: CONNECT without the credentials %v was relayed to %s", p.ID, p.Cred, res.Backend)
@@ -129,14 +159,21 @@ func runHP(c *h.Case, s *hpSpec) {
 			run.Count("http_proxy_plugin_refusals_checked", 1)
 		}
 		if s.Form == "connect" && s.Version == "1.1" && canonicalProxyAuth(lines, p.Cred) {
-			if res.Backend != p.Target.ID || len(ids) == 0 {
-				c.Violation("plugin-http_proxy-exact-credentials-refused", "http_proxy plugin %s: CONNECT with the exact credentials %v: responses %v, tunnel answered by %q", p.ID, p.Cred, res.Statuses, res.Backend)
+			good := func() bool { return o.res.Backend == p.Target.ID && len(o.ids) > 0 }
+			refusedAuth := func() bool { return len(o.res.Statuses) > 0 && o.res.Statuses[0] == 407 }
+			for try := 1; try <= 2 && !good() && !refusedAuth(); try++ {
+				time.Sleep(time.Duration(try) * 500 * time.Millisecond)
+				run.Count("positive_control_retries", 1)
+				o = exchange(try)
+			}
+			if !good() {
+				c.Violation("plugin-http_proxy-exact-credentials-refused", "http_proxy plugin %s: CONNECT with the exact credentials %v: responses %v, tunnel answered by %q", p.ID, p.Cred, o.res.Statuses, o.res.Backend)
 			}
 			run.Count("http_proxy_plugin_positive_controls", 1)
 		}
 	}
 	if c.Idx%1499 == 0 {
-		run.Sample(map[string]any{"surface": "plugin-http_proxy", "request": b.String()})
+		run.Sample(map[string]any{"surface": "plugin-http_proxy", "request": string(build("tag"))})
 	}
 }
 
@@ -155,7 +192,7 @@ func genHP(rng *rand.Rand) []spec {
 			}
 		}
 	}
-	n := run.N(200, 3000)
+	n := run.N(400, 8000)
 	for i := 0; i < n; i++ {
 		out = append(out, spec{HP: &hpSpec{Plugin: pick(rng, pluginsOf("http_proxy")).ID, Form: pick(rng, []string{"absolute", "absolute", "origin", "connect", "connect-lower"}),
 			Method: pick(rng, []string{"GET", "GET", "HEAD", "POST"}), Version: pick(rng, []string{"1.1", "1.1", "1.0"}), A: randKinds(rng), PA: randKinds(rng), AName: pick(rng, aNames), PAName: pick(rng, paNames)}})
@@ -222,36 +259,34 @@ func socksCreds(kind string, f cred) (string, string) {
 
 var socksKinds = []string{"exact", "wrong-pw", "other-exact", "other-user-this-pw", "empty-user", "empty-pw", "empty-both", "user-case", "pw-case", "pw-prefix", "pw-suffix", "pw-nul", "long", "swapped"}
 
-func runSocks(c *h.Case, s *socksSpec) {
-	p := pluginByID(s.Plugin)
-	tag := tagFor(c, 0)
-	sentAuth := false
-	exact := s.User == p.Cred.User && s.Pass == p.Cred.Pass
-	register(c, tag, nil, func(seenRec, *backend) string { return "plugin-socks5-relayed-without-credentials" },
-		func(cr cred) bool { return sentAuth && s.User == cr.User && s.Pass == cr.Pass })
-	run.Count("socks5_plugin_sessions", 1)
-	defer run.Distinct(fmt.Sprintf("socks|%s|%v|%s|%d|%s", s.Plugin, s.Methods, s.Stage, s.AuthVer, s.Kind))
+type socksOutcome struct {
+	sentAuth, authRefused, refused, closed, timedOut, dialed bool
+	wrongAccepted                                            bool
+	relayed                                                  string
+	trace                                                    []string
+}
+
+// socksSession plays one RFC 1928 / 1929 session as described by s and reports what happened.
+func socksSession(c *h.Case, s *socksSpec, p *pluginInst, tag string, exact bool) (o socksOutcome) {
 	conn, err := net.DialTimeout("tcp", fmt.Sprintf("127.0.0.1:%d", p.Port), 5*time.Second)
 	if err != nil {
-		run.Inconclusive("socks5 plugin: dial failed")
-		return
+		return o
 	}
+	o.dialed = true
 	defer conn.Close()
 	_ = conn.SetDeadline(time.Now().Add(15 * time.Second))
 	br := bufio.NewReader(conn)
-	var trace []string
 	note := func(f string, a ...any) {
-		trace = append(trace, fmt.Sprintf(f, a...))
+		o.trace = append(o.trace, fmt.Sprintf(f, a...))
 		c.Ev("socks", "step", fmt.Sprintf(f, a...))
 	}
-	refused, closed, timedOut, relayed := false, false, false, ""
 	readN := func(n int) ([]byte, bool) {
 		buf := make([]byte, n)
 		if _, err := io.ReadFull(br, buf); err != nil {
 			if isTimeout(err) {
-				timedOut = true
+				o.timedOut = true
 			} else {
-				closed = true
+				o.closed = true
 			}
 			return nil, false
 		}
@@ -274,22 +309,20 @@ func runSocks(c *h.Case, s *socksSpec) {
 		}
 		note("connect reply %v", rep)
 		if rep[1] != 0 {
-			refused = true
+			o.refused = true
 			return
 		}
 		fmt.Fprintf(conn, "GET /via-socks5 HTTP/1.1\r\nHost: tunnel.test\r\nX-Verif-Tag: %s\r\nConnection: close\r\n\r\n", tag)
 		line, err := br.ReadString('\n')
 		if err == nil && strings.HasPrefix(line, "HTTP/1.1 200") {
-			relayed = p.Target.ID
+			o.relayed = p.Target.ID
 		}
 		note("tunnel answer %q", strings.TrimSpace(line))
 	}
 	func() {
-		switch s.Stage {
-		case "no-greeting":
+		if s.Stage == "no-greeting" {
 			_, _ = conn.Write(connectReq())
-			sel, ok := readN(2)
-			if ok {
+			if sel, ok := readN(2); ok {
 				note("answer to a request without greeting: %v", sel)
 			}
 			return
@@ -302,10 +335,8 @@ func runSocks(c *h.Case, s *socksSpec) {
 		note("method selection %v", sel)
 		switch sel[1] {
 		case 0xff:
-			refused = true
-			return
-		case 0x00:
-			// "no authentication required" selected
+			o.refused = true
+		case 0x00: // "no authentication required" selected
 			_, _ = conn.Write(connectReq())
 			tunnel()
 		case 0x02:
@@ -314,7 +345,7 @@ func runSocks(c *h.Case, s *socksSpec) {
 				tunnel()
 				return
 			}
-			sentAuth = true
+			o.sentAuth = true
 			_, _ = conn.Write(authMsg())
 			st, ok := readN(2)
 			if !ok {
@@ -322,46 +353,78 @@ func runSocks(c *h.Case, s *socksSpec) {
 			}
 			note("auth status %v", st)
 			if st[1] != 0 {
-				refused = true
+				o.refused, o.authRefused = true, true
 				return
 			}
 			if !exact {
-				c.Violation("plugin-socks5-wrong-credentials-accepted", "socks5 plugin %s (configured %v): sub-negotiation with user %q password %q (version byte %d) was answered with success", p.ID, p.Cred, s.User, s.Pass, s.AuthVer)
+				o.wrongAccepted = true
 			}
 			_, _ = conn.Write(connectReq())
 			tunnel()
 		default:
-			refused = true
+			o.refused = true
 		}
 	}()
-	if refused && !closed {
+	if o.refused && !o.closed {
 		// a refusing server must close: wait for EOF
 		if _, err := br.ReadByte(); err != nil {
 			if isTimeout(err) {
-				timedOut = true
+				o.timedOut = true
 			} else {
-				closed = true
+				o.closed = true
 			}
 		}
 	}
-	judgeSeen(c, tag)
-	presented := sentAuth && exact
+	return o
+}
+
+func runSocks(c *h.Case, s *socksSpec) {
+	p := pluginByID(s.Plugin)
+	exact := s.User == p.Cred.User && s.Pass == p.Cred.Pass
+	run.Distinct(fmt.Sprintf("socks|%s|%v|%s|%d|%s", s.Plugin, s.Methods, s.Stage, s.AuthVer, s.Kind))
+	exchange := func(sub int) socksOutcome {
+		tag := tagFor(c, sub)
+		sent := new(bool)
+		register(c, tag, nil, func(seenRec, *backend) string { return "plugin-socks5-relayed-without-credentials" },
+			func(cr cred) bool { return *sent && s.User == cr.User && s.Pass == cr.Pass })
+		run.Count("socks5_plugin_sessions", 1)
+		// the sub-negotiation is only reached when the server selects method 2; until the session reports otherwise
+		// nothing was presented
+		o := socksSession(c, s, p, tag, exact)
+		*sent = o.sentAuth
+		judgeSeen(c, tag)
+		return o
+	}
+	o := exchange(0)
+	if !o.dialed {
+		run.Inconclusive("socks5 plugin: dial failed")
+		return
+	}
+	if o.wrongAccepted {
+		c.Violation("plugin-socks5-wrong-credentials-accepted", "socks5 plugin %s (configured %v): sub-negotiation with user %q password %q (version byte %d) was answered with success", p.ID, p.Cred, s.User, s.Pass, s.AuthVer)
+	}
+	presented := o.sentAuth && exact
 	if !presented && c.Violations() == 0 {
-		if relayed != "" {
-			c.Violation("plugin-socks5-relayed-without-credentials", "socks5 plugin %s: session %v was relayed without the credentials %v", p.ID, trace, p.Cred)
-		} else if timedOut {
-			c.Violation("plugin-socks5-refused-connection-not-closed", "socks5 plugin %s: session %v without the credentials %v: connection still open after 15 s", p.ID, trace, p.Cred)
+		if o.relayed != "" {
+			c.Violation("plugin-socks5-relayed-without-credentials", "socks5 plugin %s: session %v was relayed without the credentials %v", p.ID, o.trace, p.Cred)
+		} else if o.timedOut {
+			c.Violation("plugin-socks5-refused-connection-not-closed", "socks5 plugin %s: session %v without the credentials %v: connection still open after 15 s", p.ID, o.trace, p.Cred)
 		}
 		run.Count("socks5_plugin_refusals_checked", 1)
 	}
-	if presented && s.AuthVer == 1 && s.Stage == "normal" && len(s.Methods) == 1 {
-		if relayed == "" {
-			c.Violation("plugin-socks5-exact-credentials-refused", "socks5 plugin %s: exact credentials %v were not relayed: %v", p.ID, p.Cred, trace)
+	if exact && s.AuthVer == 1 && s.Stage == "normal" && len(s.Methods) == 1 && s.Methods[0] == 2 {
+		for try := 1; try <= 2 && o.relayed == "" && !o.authRefused; try++ {
+			time.Sleep(time.Duration(try) * 500 * time.Millisecond)
+			run.Count("positive_control_retries", 1)
+			o = exchange(try)
+		}
+		if o.relayed == "" {
+			c.Violation("plugin-socks5-exact-credentials-refused", "socks5 plugin %s: exact credentials %v were not relayed: %v", p.ID, p.Cred, o.trace)
 		}
 		run.Count("socks5_plugin_positive_controls", 1)
 	}
 	if c.Idx%1201 == 0 {
-		run.Sample(map[string]any{"surface": "plugin-socks5", "spec": s, "trace": trace})
+		run.Sample(map[string]any{"surface": "plugin-socks5", "spec": s, "trace": o.trace})
 	}
 }
 
@@ -380,7 +443,7 @@ func genSocks(rng *rand.Rand) []spec {
 		}
 		out = append(out, spec{Socks: &socksSpec{Plugin: p.ID, Methods: nil, Stage: "no-greeting", AuthVer: 1, Kind: "none", User: "", Pass: "\x01"}})
 	}
-	n := run.N(100, 2000)
+	n := run.N(300, 8000)
 	for i := 0; i < n; i++ {
 		p := pick(rng, pluginsOf("socks5"))
 		k := pick(rng, socksKinds)
@@ -421,14 +484,21 @@ func runStatic(c *h.Case, s *staticSpec) {
 	}
 	b.WriteString("Connection: close\r\n\r\n")
 	c.Ev("request", "raw", b.String())
-	resp := doRaw(fmt.Sprintf("127.0.0.1:%d", p.Port), b.Bytes(), s.Method, 20*time.Second)
-	c.Ev("response", "status", resp.Status, "header", resp.Header, "err", fmt.Sprint(resp.Err), "body", string(resp.Body))
-	run.Count("static_file_plugin_requests", 1)
+	var resp rawResp
+	exchange := func() {
+		resp = doRaw(fmt.Sprintf("127.0.0.1:%d", p.Port), b.Bytes(), s.Method, 20*time.Second)
+		c.Ev("response", "status", resp.Status, "header", resp.Header, "err", fmt.Sprint(resp.Err), "body", string(resp.Body))
+		run.Count("static_file_plugin_requests", 1)
+	}
+	exchange()
 	if resp.Err == errTimeout {
 		run.Inconclusive("static_file plugin: no response within 20 s")
 	}
 	has := carries(lines, p.Cred)
-	leaked := bytes.Contains(resp.Body, []byte(staticMarker)) || bytes.Contains(resp.Body, []byte(`href="secret.txt"`)) || bytes.Contains(resp.Body, []byte(`href="deep.txt"`)) || bytes.Contains(resp.Body, []byte(`href="sub/"`))
+	leakedOf := func(r rawResp) bool {
+		return bytes.Contains(r.Body, []byte(staticMarker)) || bytes.Contains(r.Body, []byte(`href="secret.txt"`)) || bytes.Contains(r.Body, []byte(`href="deep.txt"`)) || bytes.Contains(r.Body, []byte(`href="sub/"`))
+	}
+	leaked := leakedOf(resp)
 	if !has && resp.Err == nil {
 		if leaked || (resp.Status >= 200 && resp.Status < 300) {
 			c.Violation("plugin-static_file-served-without-credentials", "static_file plugin %s: %s %s without the credentials %v was served: status %d, body %q", p.ID, s.Method, s.Path, p.Cred, resp.Status, resp.Body)
@@ -438,7 +508,12 @@ func runStatic(c *h.Case, s *staticSpec) {
 		run.Count("static_file_plugin_refusals_checked", 1)
 	}
 	if s.Exists && s.Method == "GET" && s.Form == "origin" && s.Version == "1.1" && canonicalAuth(lines, p.Cred) {
-		if resp.Status != 200 || !leaked {
+		for try := 1; try <= 2 && resp.Status != 200 && resp.Status != 401; try++ {
+			time.Sleep(time.Duration(try) * 500 * time.Millisecond)
+			run.Count("positive_control_retries", 1)
+			exchange()
+		}
+		if resp.Status != 200 || !leakedOf(resp) {
 			c.Violation("plugin-static_file-exact-credentials-refused", "static_file plugin %s: GET %s with the exact credentials %v: status %d body %q err %v", p.ID, s.Path, p.Cred, resp.Status, resp.Body, resp.Err)
 		}
 		run.Count("static_file_plugin_positive_controls", 1)
@@ -476,7 +551,7 @@ func genStatic(rng *rand.Rand) []spec {
 			}
 		}
 	}
-	n := run.N(200, 3000)
+	n := run.N(400, 8000)
 	for i := 0; i < n; i++ {
 		p := pick(rng, pluginsOf("static_file"))
 		sp := pick(rng, staticPaths(p))
